@@ -15,6 +15,35 @@ Theorem C12_packability_least : forall c,
 Proof. intros c. rewrite gen_pack. apply pack_spec. Qed.
 Print Assumptions C12_packability_least.
 
+(** round_storage_bytes_to_gib (regenerated from source) grants the LEAST whole number of GiB covering the byte count: never
+    fewer bytes than asked, and one GiB less would not do.  All byte counts >= 0. *)
+Theorem C12_storage_rounding_least : forall b, 0 <= b ->
+  b <= C12.Gen.round_storage_bytes_to_gib b * gib /\
+  (forall g, b <= g * gib -> C12.Gen.round_storage_bytes_to_gib b <= g) /\
+  (0 < b -> (C12.Gen.round_storage_bytes_to_gib b - 1) * gib < b).
+Proof.
+  intros b Hb. rewrite gen_round_storage. destruct (round_storage_least b Hb) as (_ & H1 & H2 & H3). repeat split; assumption.
+Qed.
+Print Assumptions C12_storage_rounding_least.
+
+(** requested_storage_bytes_to_actual_storage_gib (regenerated, both clouds): the granted GiB cover the requested bytes, respect
+    the clouds' 10 GiB minimum disk (nothing only for an allowed request for nothing), do not exceed the cloud's largest disk,
+    and are the LEAST such whole number of GiB; a storage request is refused only above the cloud's largest disk. *)
+Theorem C12_storage_grant_least : forall gcp s allow,
+  0 <= s ->
+  match gen_storage gcp s allow with
+  | Some g => storage_grant_ok s allow g /\ g <= max_gib_of C12.Gen.max_storage_gib_gcp C12.Gen.max_storage_gib_azure gcp /\
+              (forall g', storage_grant_ok s allow g' -> g <= g')
+  | None => max_gib_of C12.Gen.max_storage_gib_gcp C12.Gen.max_storage_gib_azure gcp * gib < s
+  end.
+Proof.
+  intros gcp s allow Hs. rewrite gen_storage_eq.
+  destruct (storage_gib _ s allow) as [g|] eqn:E.
+  - exact (storage_gib_least _ _ _ _ Hs (max_storage_ok gcp) E).
+  - exact (storage_gib_complete _ _ _ E).
+Qed.
+Print Assumptions C12_storage_grant_least.
+
 (** What a pool grants is at least what was asked (cores, memory, storage) and fits on one of its workers. *)
 Theorem C12_pool_grant_sound : forall (p : pool) c m s gc gm gs,
   0 < p_mpc p -> 0 <= s -> gen_convert_pool p c m s = Some (gc, gm, gs) ->
@@ -123,11 +152,13 @@ Qed.
 Print Assumptions C12_cheapest_is_minimal.
 
 (** Satisfiability of the hypotheses, on concrete data: a standard 16-core gcp pool grants (250 mcpu, 1 GiB, 5 GiB) -> (500 mcpu,
-    1920 MiB, 10 GiB); a 17-core request is refused. *)
+    1920 MiB, 10 GiB); a 17-core request is refused; 10.5 GiB of storage are granted as 11 GiB, 20 GB (decimal) as 19 GiB. *)
 Theorem C12_examples :
   let p := mkPool 1 true 0 16 true 0 3840 0 in
   gen_convert_pool p 250 1073741824 5368709120 = Some (500, 2013265920, 10) /\
   gen_convert_pool p 17000 0 0 = None /\
+  C12.Gen.round_storage_bytes_to_gib 11274289152 = 11 /\
+  gen_storage true 20000000000 true = Some 19 /\ gen_storage false 0 true = Some 0 /\ gen_storage false 0 false = Some 10 /\
   select [p] 9 true true 0 true (Cheapest 250 1073741824) 5368709120 = Some (1, 500, 2013265920, 10).
 Proof. vm_compute. repeat split; reflexivity. Qed.
 Print Assumptions C12_examples.
